@@ -32,6 +32,8 @@ OBLIGATIONS = ["NiftyVerif.C01." + t for t in (
     "blockHom_proj", "den_unitEntry", "combineSum_sound", "mkSumU_pair_sound", "combineSum_missing_missing",
     "combineSum_mkSumU_sound", "sumMergeBlocksInner_sound", "sumMergeBlocks_sound", "combineChainEntry_sound",
     "combineChain_sound", "chainMergeBlock_sound",
+    "list_intertwine", "list_intertwine_rev", "signedSum_intertwine", "inv_intertwine", "adapter_io", "chain_io", "den_typed",
+    "typed_scaling", "typed_mul", "tree_sound_typed",
 )]
 RULE = ("random construction scripts (typed generator over 8 small domains, 14 leaves with independently known exact "
         "matrices, scaling/diagonal/partial-space diagonal/null/block-diagonal/sandwich/InversionEnabler, combined with "
